@@ -37,3 +37,7 @@ def check(run):
     ok, bad = emit(run, R, RULES)
     run.stats.update(R.I.stats)
     run.floor("F-ALIAS", ok + bad, 8)
+    # exports handed to data conversions: the conversion writes into a copy, and the matplotlib collections are copied on every return
+    from .c15 import _copies
+    _copies(run, P)
+
